@@ -71,8 +71,7 @@ Definition read_sem (W : world) : world * res value :=
 (* a call with one pure argument, or read(): nm(e) for write, toa, aton and for user functions *)
 Definition is_bcall (e : node) : bool :=
   match e with
-  | NCall (NName nm) [a] => pure a
-  | NCall (NName nm) [] => String.eqb nm "read"
+  | NCall (NName nm) args => forallb pure args
   | _ => false
   end.
 
@@ -117,8 +116,9 @@ Definition cond_res (r : res value) : res bool :=
 (* Bf: the functions the session knows — ft_val nm is the function value nm was bound to when it was
    defined (for the built-ins: when the session began); ft_body nm is, for a user function of one
    parameter whose body is a pure expression over its parameter and the globals, that body.  A call
-   nm(e) has the meaning of the built-in or of the body for as long as nm is still bound to ft_val nm. *)
-Record ftab := { ft_val : string -> value; ft_body : string -> option node }.
+   nm(e) has the meaning of the built-in or of the body for as long as nm is still bound to ft_val nm.
+   ft_arity nm is the number of parameters of a user function. *)
+Record ftab := { ft_val : string -> value; ft_body : string -> option node; ft_arity : string -> Z }.
 
 (* the value is a function value *)
 Definition is_fun (y : value) : bool := match y with VFun _ _ => true | _ => false end.
@@ -136,6 +136,27 @@ Proof.
   - rewrite (IH e1), (IH e2), (IH e3). reflexivity.
   - induction l as [|x r IHr]; [reflexivity|]. cbn [forallb]. rewrite (IH x), IHr. reflexivity.
 Qed.
+
+Definition heights (l : list node) : nat := fold_right (fun x acc => Nat.max (height x) acc) 0%nat l.
+
+(* the call nm(args) of a user function of the table, when nm is still bound to it: the arguments left to
+   right, then the body with the parameters holding their values *)
+Definition ucall_sem (Bf : ftab) (n' : nat) (W : world) (nm : string) (args : list node) : option (world * res value) :=
+  match ft_body Bf nm with
+  | Some body =>
+      if (ft_arity Bf nm =? zlen args) && lpure (repeat VNil (List.length args)) body && Nat.leb (heights args) n'
+         && Nat.leb (height body) n' && fun_eqb (gval (w_glob W) nm) (ft_val Bf nm) then
+        match seq_res (den (w_glob W)) args with
+        | Ok xs =>
+            match lden xs (w_glob W) body with
+            | Ok y => if is_fun y then None else Some (wbump W, Ok y)
+            | Fail err => Some (wbump W, Fail err)
+            end
+        | Fail err => Some (W, Fail err)
+        end
+      else None
+  | None => None
+  end.
 
 Lemma height_pos e : (1 <= height e)%nat.
 Proof. destruct e; cbn [height]; lia. Qed.
@@ -181,7 +202,7 @@ Fixpoint ssem (n : nat) (W : world) (t : node) {struct n} : option (world * res 
           | None =>
               match ft_body Bf nm with
               | Some body =>
-                  if lpure1 body && Nat.leb (height e) n' && Nat.leb (height body) n'
+                  if (ft_arity Bf nm =? 1) && lpure1 body && Nat.leb (height e) n' && Nat.leb (height body) n'
                      && fun_eqb (gval (w_glob W) nm) (ft_val Bf nm) then
                     match den (w_glob W) e with
                     | Ok x =>
@@ -196,8 +217,15 @@ Fixpoint ssem (n : nat) (W : world) (t : node) {struct n} : option (world * res 
               end
           end
       | NCall (NName nm) [] =>
-          if String.eqb nm "read" && Nat.leb 1 n' && fun_eqb (gval (w_glob W) nm) (ft_val Bf nm)
-          then Some (wbump (fst (read_sem W)), snd (read_sem W)) else None
+          if String.eqb nm "read" then
+            if Nat.leb 1 n' && fun_eqb (gval (w_glob W) nm) (ft_val Bf nm)
+            then Some (wbump (fst (read_sem W)), snd (read_sem W)) else None
+          else match bop_of_name nm with Some _ => None | None => ucall_sem Bf n' W nm [] end
+      | NCall (NName nm) (e1 :: e2 :: rest) =>
+          match bop_of_name nm with
+          | Some _ => None
+          | None => if String.eqb nm "read" then None else ucall_sem Bf n' W nm (e1 :: e2 :: rest)
+          end
       | NBlock l =>
           (fix go (l : list node) (W : world) : option (world * res value) :=
              match l with
@@ -349,7 +377,7 @@ Definition sem_bf (st : sstate) : Prop :=
       Some {| sc_params := 0; sc_locals := lc; sc_body := NRead; sc_env := None |}) /\
   (forall nm body mo id, bop_of_name nm = None -> ft_body Bf nm = Some body -> ft_val Bf nm = VFun mo id ->
     exists lc, assoc_get (s_clos st) id =
-      Some {| sc_params := 1; sc_locals := lc; sc_body := body; sc_env := None |}).
+      Some {| sc_params := ft_arity Bf nm; sc_locals := lc; sc_body := body; sc_env := None |}).
 
 Lemma eval_local0 n env st fid x rest ln :
   e_frame env = Some fid -> assoc_get (s_frames st) fid = Some (x :: rest) ->
@@ -387,6 +415,79 @@ Proof.
     rewrite (eval_local0 n env st fid x rest ln He Hf). cbn [bind bop_sem fst snd].
     exists st. split; [|split; reflexivity].
     unfold aton_res. destruct x; try reflexivity. destruct (atoi s); [reflexivity|]. destruct (parse_float s); reflexivity.
+Qed.
+
+Lemma eval_call_unfold n name args env st :
+  eval (S n) (NCall name args) env st =
+  ev_list_of n env args st [] (fun st1 argv =>
+    bind (lookup st1 env name) (fun st2 f =>
+      match f with
+      | VFun _ id =>
+          match assoc_get (s_clos st2) id with
+          | None => Done st2 (Sem.CAbort "no such function")
+          | Some c =>
+              if negb (sc_params c =? zlen argv) then Done st2 (CErr ErrArity)
+              else
+                let locals := repeat VNil (Z.to_nat (sc_locals c - sc_params c)) in
+                let (st3, fid) := new_frame st2 (argv ++ locals) in
+                catch_return (eval n (sc_body c) {| e_frame := Some fid; e_closure := sc_env c |} st3)
+          end
+      | _ => Done st2 (CErr ErrType)
+      end)).
+Proof. reflexivity. Qed.
+
+Lemma heights_in x l : In x l -> (height x <= heights l)%nat.
+Proof. apply height_in. Qed.
+
+Lemma seq_res_length (f : node -> res value) : forall l vs, seq_res f l = Ok vs -> List.length vs = List.length l.
+Proof.
+  induction l as [|x r IH]; intros vs H; cbn [seq_res] in H; [injection H as <-; reflexivity|].
+  destruct (f x) as [v|e]; [|discriminate H]. destruct (seq_res f r) as [vr|e] eqn:E; [|discriminate H].
+  injection H as <-. cbn [List.length]. rewrite (IH vr eq_refl). reflexivity.
+Qed.
+
+(* a call of a user function of the table, under the definitional semantics *)
+Lemma eval_ucall n nm args env st W' r :
+  forallb pure args = true -> sem_bf st -> bop_of_name nm = None ->
+  ucall_sem Bf n (wof_s st) nm args = Some (W', r) ->
+  exists st', eval (S n) (NCall (NName nm) args) env st = Done st' (ctl_of r) /\ wof_s st' = W' /\ s_clos st' = s_clos st.
+Proof.
+  intros Hp Hbf Hb Hs. unfold ucall_sem in Hs.
+  destruct (ft_body Bf nm) as [body|] eqn:Ebody; [|discriminate Hs].
+  destruct (Z.eqb_spec (ft_arity Bf nm) (zlen args)) as [Ear|]; [|discriminate Hs]. cbn [andb] in Hs.
+  destruct (lpure (repeat VNil (List.length args)) body) eqn:Hlp; [|discriminate Hs]. cbn [andb] in Hs.
+  destruct (Nat.leb_spec (heights args) n) as [Hh|Hh]; [|discriminate Hs]. cbn [andb] in Hs.
+  destruct (Nat.leb_spec (height body) n) as [Hhb|Hhb]; [|discriminate Hs]. cbn [andb] in Hs.
+  destruct (fun_eqb (gval (w_glob (wof_s st)) nm) (ft_val Bf nm)) eqn:Ef; [|discriminate Hs].
+  apply fun_eqb_eq in Ef. destruct Ef as [Eg [mo [id Ebf]]]. cbn [wof_s w_glob] in Eg, Hs.
+  destruct (proj2 (proj2 Hbf) nm body mo id Hb Ebody Ebf) as [lc Hcl].
+  rewrite eval_call_unfold.
+  rewrite (ev_list_pure n env args).
+  2:{ rewrite Forall_forall. intros x Hx st0. apply eval_pure.
+      - rewrite forallb_forall in Hp. exact (Hp x Hx).
+      - pose proof (heights_in x args Hx). lia. }
+  destruct (seq_res (den (s_globals st)) args) as [xs|err] eqn:Exs.
+  - cbn [rev app lookup bind]. fold (gval (s_globals st) nm). rewrite Eg, Ebf, Hcl.
+    cbn [sc_params sc_locals sc_body sc_env].
+    assert (Hlen : List.length xs = List.length args) by (apply (seq_res_length _ _ _ Exs)).
+    assert (Ez : (ft_arity Bf nm =? zlen xs) = true) by (apply Z.eqb_eq; rewrite Ear; unfold zlen; rewrite Hlen; reflexivity).
+    rewrite Ez. cbn [negb new_frame].
+    match goal with |- context [eval _ _ _ ?s0] => set (st3 := s0) end.
+    assert (Hlp' : lpure xs body = true).
+    { rewrite (lpure_len xs (repeat VNil (List.length args)) body); [exact Hlp|]. unfold zlen. rewrite repeat_length, Hlen. reflexivity. }
+    assert (Hfh : frame_holds xs st3 {| e_frame := Some (s_next st); e_closure := None |}).
+    { right. eexists (s_next st), _. split; [reflexivity|]. split.
+      - cbn [st3 s_frames assoc_get]. rewrite Z.eqb_refl. reflexivity.
+      - intros ix Hix. unfold znth, zlen in *. destruct (Z.ltb_spec ix 0); [lia|].
+        apply nth_error_app1. lia. }
+    destruct n as [|n1]; [pose proof (height_pos body); lia|].
+    rewrite (eval_lpure xs body Hlp' (S n1) _ st3 Hhb Hfh).
+    change (s_globals st3) with (s_globals st).
+    destruct (lden xs (s_globals st) body) as [y|err]; cbn [ctl_of catch_return].
+    + destruct (is_fun y); [discriminate Hs|]. injection Hs as <- <-.
+      exists st3. split; [reflexivity|]. split; reflexivity.
+    + injection Hs as <- <-. exists st3. split; [reflexivity|]. split; reflexivity.
+  - injection Hs as <- <-. exists st. split; [reflexivity|split; reflexivity].
 Qed.
 
 (* Sem.eval computes the fuelled meaning: same fuel, same world, same value or error; the closure
@@ -477,11 +578,12 @@ Proof.
            exists st2. split; [exact E2|]. split; [exact HW2|congruence].
         -- injection Hs as <- <-. destruct (IH x Hx env st W1 (Fail e) Hbf Ex) as (st1 & E1 & HW1 & HC1).
            rewrite E1. exists st1. split; [reflexivity|split; assumption].
-  - (* NCall: a built-in *)
-    destruct t; try discriminate Hw. destruct args as [|a [|a2 l]]; try discriminate Hw.
-    { (* read() *)
-      cbn [wstmt is_bcall] in Hw. cbn [ssem] in Hs. rewrite Hw in Hs. cbn [andb] in Hs.
-      apply String.eqb_eq in Hw. subst n0.
+  - (* NCall *)
+    destruct t; try discriminate Hw. cbn [wstmt is_bcall] in Hw. destruct args as [|a [|a2 l]].
+    { (* no argument: read(), or a user function *)
+      cbn [ssem] in Hs. destruct (String.eqb n0 "read") eqn:Er.
+      2:{ destruct (bop_of_name n0) eqn:Eb; [discriminate Hs|]. exact (eval_ucall n n0 [] env st W' r Hw Hbf Eb Hs). }
+      apply String.eqb_eq in Er. subst n0.
       destruct (Nat.leb_spec 1 n) as [H1|H1]; [|discriminate Hs]. cbn [andb] in Hs.
       destruct (fun_eqb (gval (w_glob (wof_s st)) "read") (ft_val Bf "read")) eqn:Ef; [|discriminate Hs].
       apply fun_eqb_eq in Ef. destruct Ef as [Eg [mo [id Ebf]]]. cbn [wof_s w_glob] in Eg, Hs.
@@ -509,11 +611,16 @@ Proof.
       * eexists. split; [reflexivity|]. split; [|reflexivity].
         unfold wbump, wof_s; cbn [w_glob w_out w_in w_next s_globals s_out s_in s_next]. rewrite Ein. reflexivity.
       * eexists. split; [reflexivity|]. split; reflexivity. }
+    2:{ (* two or more arguments *)
+      cbn [ssem] in Hs. destruct (bop_of_name n0) eqn:Eb; [discriminate Hs|].
+      destruct (String.eqb n0 "read"); [discriminate Hs|].
+      exact (eval_ucall n n0 _ env st W' r Hw Hbf Eb Hs). }
     { (* nm(e) *)
-    cbn [wstmt is_bcall] in Hw. cbn [ssem] in Hs.
+    cbn [forallb] in Hw. rewrite andb_true_r in Hw. cbn [ssem] in Hs.
     destruct (bop_of_name n0) as [b|] eqn:Eb.
     2:{ (* a user function *)
       destruct (ft_body Bf n0) as [body|] eqn:Ebody; [|discriminate Hs].
+      destruct (Z.eqb_spec (ft_arity Bf n0) 1) as [Ear|]; [|discriminate Hs]. cbn [andb] in Hs.
       destruct (lpure1 body) eqn:Hlp; [|discriminate Hs]. cbn [andb] in Hs.
       destruct (Nat.leb_spec (height a) n) as [Hh|Hh]; [|discriminate Hs]. cbn [andb] in Hs.
       destruct (Nat.leb_spec (height body) n) as [Hhb|Hhb]; [|discriminate Hs]. cbn [andb] in Hs.
@@ -539,7 +646,7 @@ Proof.
                   end))).
       rewrite (eval_pure a Hw (S n1) env st Hh).
       destruct (den (s_globals st) a) as [x|err]; cbn [ctl_of bind].
-      - cbn [lookup bind]. fold (gval (s_globals st) n0). rewrite Eg, Ebf, Hcl.
+      - cbn [lookup bind]. fold (gval (s_globals st) n0). rewrite Eg, Ebf, Hcl. rewrite Ear.
         cbn [sc_params sc_locals sc_body sc_env rev app zlen List.length Z.of_nat Z.eqb negb].
         replace (negb (1 =? Pos.of_succ_nat 0)%positive) with false by reflexivity.
         cbn [new_frame].
